@@ -38,7 +38,11 @@
      and the result class `<ReturnType>` (package.py `add_operation`: `str_to_pascal_case(operation name)`);
      a parameter or local of that name shadows the global, and what the caller passed (an opaque value) is
      called / asked for `.model_validate` instead: TypeError / AttributeError (explicit error branches).
-     Not modelled: custom scalars with `serialize` (the dict value is then `serialize(<name>)`; C03's business).
+     A variable whose type is a custom scalar configured WITH a serialize function gets the dict value
+     `<serialize_name>(<name>)` (arguments.py `_get_dict_value(name, used_custom_scalar)`: the processed
+     name, like the plain case); `<serialize_name>` is a third module global the body reads (imported by
+     `generate_scalar_imports`).  One serialize function per method is modelled (`serName`); what it does to
+     a nullable/omitted argument is C03's business.
 
   B. the scope of a result CLASS whose fields come from several selection sources: own fields,
      inline fragments, unpacked fragment spreads, and fragments that become base classes.
@@ -103,11 +107,14 @@ def variablesLocal : Name := "variables".toList
 def responseLocal : Name := "response".toList
 def dataLocal : Name := "data".toList
 def gqlName : Name := "gql".toList
+/-- the serialize function of the custom scalar used in the correspondence (`ScalarData.serialize_name`) -/
+def serName : Name := "serialize_dt".toList
 
 /-- one GraphQL variable of the operation -/
 structure Var where
   name : Name          -- GraphQL name, without `$`
   required : Bool      -- non-null type: the parameter has no default and is placed before the optional ones
+  ser : Bool := false  -- the type is a custom scalar with a serialize function: the dict value is `serialize(<name>)`
   deriving DecidableEq, Repr
 
 /-- the Python parameter of a variable (`process_name` with the flags of arguments.py) -/
@@ -115,6 +122,13 @@ def paramOf (sn : Bool) (v : Var) : Name := pyName sn .variable v.name
 
 /-- parameters in DOCUMENT order (the order of the `variables` dict) -/
 def docParams (sn : Bool) (vars : List Var) : List Name := vars.map (paramOf sn)
+
+/-- the names the values of the `variables` dict READ, in document order: `_get_dict_value(name, …)` is
+    given the processed name, i.e. the parameter -/
+def dictReads (sn : Bool) (vars : List Var) : List Name := vars.map (paramOf sn)
+
+/-- which dict values go through the serialize function -/
+def serFlags (vars : List Var) : List Bool := vars.map (·.ser)
 
 /-- `arguments.args` without `self`: required first, then optional, each in document order -/
 def params (sn : Bool) (vars : List Var) : List Name :=
@@ -148,6 +162,7 @@ inductive Val where
   | resp (q v : Val)                            -- `self.execute(query=q, variables=v, ...)`
   | data (r : Val)                              -- `self.get_data(r)`  /  one message of `execute_ws`
   | parsed (d : Val)                            -- `<ReturnType>.model_validate(d)`
+  | ser (v : Val)                               -- `<serialize_name>(v)`
 
 inductive MethodErr where
   | syntaxError             -- duplicate argument / parameter that is not an identifier: the module does not compile
@@ -176,6 +191,12 @@ def readAll (env : Env) : List Name → Except MethodErr (List Val)
     | .error e, _ => .error e
     | _, .error e => .error e
 
+/-- the dict values after the serialize calls (flags in document order; missing flags = plain) -/
+def applySer : List Bool → List Val → List Val
+  | _, [] => []
+  | [], v :: vs => v :: applySer [] vs
+  | f :: fs, v :: vs => (if f then .ser v else v) :: applySer fs vs
+
 /-- what leaves the method: the two things handed to `execute` / `execute_ws`, and what is returned / yielded -/
 structure Sent where
   query : Val
@@ -190,15 +211,19 @@ def validateWith (env : Env) (ret : Name) (d : Val) : Except MethodErr Val :=
 
 /-- the method body under the environment semantics (`sub` = subscription: no `response` local;
     `ret` = the name of the result class) -/
-def runBody (sub : Bool) (L : Locals) (ret : Name) (wires ps : List Name) : Except MethodErr Sent :=
+def runBody (sub : Bool) (L : Locals) (ret : Name) (wires : List Name) (flags : List Bool) (reads ps : List Name) :
+    Except MethodErr Sent :=
   let env0 : Env := (selfName, .selfV) :: (bindArgs 0 ps ++ [(kwargsName, .kwargsV)])
   match env0.lookup gqlName with
   | some _ => .error (.notCallable gqlName)
   | none =>
   let env1 : Env := (L.q, .text) :: env0
-  match readAll env1 ps with
+  match readAll env1 reads with
   | .error e => .error e
-  | .ok vals =>
+  | .ok vals0 =>
+  if flags.any id && (env1.lookup serName).isSome then .error (.notCallable serName)
+  else
+    let vals := applySer flags vals0
     let env2 : Env := (L.v, .dict wires vals) :: env1
     match lookupVal env2 L.q, lookupVal env2 L.v with
     | .error e, _ => .error e
@@ -233,7 +258,7 @@ def defCompiles (sn : Bool) (vars : List Var) : Bool :=
 /-- a generated method (result class `ret`), called with one value per variable -/
 def runMethod (sn sub : Bool) (ret : Name) (vars : List Var) : Except MethodErr Sent :=
   if defCompiles sn vars then
-    runBody sub (getVariableNames (argNames sn vars)) ret (vars.map (·.name)) (docParams sn vars)
+    runBody sub (getVariableNames (argNames sn vars)) ret (vars.map (·.name)) (serFlags vars) (dictReads sn vars) (docParams sn vars)
   else .error .syntaxError
 
 def argVals : Nat → Nat → List Val
@@ -242,7 +267,7 @@ def argVals : Nat → Nat → List Val
 
 /-- what the property demands: the operation text and every caller's value under its GraphQL name -/
 def specSent (vars : List Var) : Sent :=
-  let d := Val.dict (vars.map (·.name)) (argVals 0 vars.length)
+  let d := Val.dict (vars.map (·.name)) (applySer (serFlags vars) (argVals 0 vars.length))
   ⟨.text, d, .parsed (.data (.resp .text d))⟩
 
 /-! Finding triggers of the method scope (decidable, on the inputs). -/
@@ -259,13 +284,15 @@ def trigKwargsParam (sn : Bool) (vars : List Var) : Bool := (docParams sn vars).
 def trigQueryCapture (sn : Bool) (vars : List Var) : Bool :=
   (docParams sn vars).contains queryLocal && (docParams sn vars).contains ('_' :: queryLocal)
 
-/-- C18-F13: a parameter named like a module global the body reads: `gql`, or the result class -/
+/-- C18-F13: a parameter named like a module global the body reads: `gql`, the result class, or the
+    serialize function of a custom scalar the same method uses -/
 def trigGlobalShadow (sn : Bool) (ret : Name) (vars : List Var) : Bool :=
-  (docParams sn vars).contains gqlName || (docParams sn vars).contains ret
+  (docParams sn vars).contains gqlName || (docParams sn vars).contains ret ||
+    ((serFlags vars).any id && (docParams sn vars).contains serName)
 
 /-- the names a generated method fixes itself: its own parameters, the helper locals in both spellings, `gql` -/
 def fixedMethodNames : List Name :=
-  [selfName, kwargsName, gqlName,
+  [selfName, kwargsName, gqlName, serName,
    queryLocal, '_' :: queryLocal, variablesLocal, '_' :: variablesLocal,
    responseLocal, '_' :: responseLocal, dataLocal, '_' :: dataLocal]
 
